@@ -36,8 +36,8 @@ Lemma list_cmd_offset E T text c steps c1 (k : nat) kb :
     else L_ok (list_lines k (skipn (k - 1) steps)).
 Proof.
   intros Hp Hg Hk H1. unfold list_cmd. rewrite Hk, Hp, Hg.
+  destruct (Z.leb_spec (Z.of_nat (length steps)) (Z.of_nat k - 1)) as [Hl|Hl]; destruct (Nat.ltb_spec (length steps) k) as [Hm|Hm]; try lia; try reflexivity.
   replace (Z.to_nat (Z.of_nat k - 1)) with (k - 1)%nat by lia.
-  destruct (Nat.leb_spec (length steps) (k - 1)) as [Hl|Hl]; destruct (Nat.ltb_spec (length steps) k) as [Hm|Hm]; try lia; try reflexivity.
   replace (S (k - 1)) with k by lia. reflexivity.
 Qed.
 
@@ -172,12 +172,12 @@ Proof. unfold raw_steps, after_parse. simpl. rewrite map_app. reflexivity. Qed.
 
 (* ---------------------------------------------------------------- the two passes *)
 (* when deciding "parallel?" neither changes the configuration nor depends on what was decided before *)
-Lemma split_regress_filter E T (par : bytes -> bool) : forall l c,
-  (forall c' n, is_parallel E T c' n = (c', par n)) ->
-  split_regress E T c l = (c, filter par l, filter (fun n => negb (par n)) l).
+Lemma split_regress_filter E T (par : bytes -> bool) c :
+  (forall n, is_parallel E T c n = (c, par n)) ->
+  forall l, split_regress E T c l = (c, filter par l, filter (fun n => negb (par n)) l).
 Proof.
-  induction l as [|n l IH]; intros c Hp; simpl; [reflexivity|].
-  rewrite Hp, (IH c Hp). destruct (par n); reflexivity.
+  intros Hp. induction l as [|n l IH]; simpl; [reflexivity|].
+  rewrite Hp, IH. destruct (par n); reflexivity.
 Qed.
 
 (* ---------------------------------------------------------------- "parallel?" on the regress tables *)
@@ -196,11 +196,11 @@ Proof.
 Qed.
 
 Lemma ge_pat_suffix g name pre suf :
-  length (gr_kw g) <> length name -> pat_split (gr_kw g) = Some (pre, suf) -> suffixb suf name = false ->
+  pat_split (gr_kw g) = Some (pre, suf) -> suffixb suf (gr_kw g) = true -> suffixb suf name = false ->
   grammar_equals g name = false.
 Proof.
-  intros Hl Hs Hsuf. unfold grammar_equals, patmatch. rewrite Hs, Hsuf, andb_false_r, andb_false_l, andb_false_r, orb_false_r.
-  destruct (beq (gr_kw g) name) eqn:Hb; [|reflexivity]. apply beq_length in Hb. congruence.
+  intros Hs Hk Hsuf. unfold grammar_equals, patmatch. rewrite Hs, Hsuf, andb_false_r, andb_false_l, andb_false_r, orb_false_r.
+  destruct (beq_spec (gr_kw g) name) as [He|He]; [|reflexivity]. rewrite He in Hk. congruence.
 Qed.
 
 Definition rn_parallel (n : bytes) : bytes := regress_name n sfx_parallel.
@@ -227,18 +227,17 @@ Proof.
   let G := eval vm_compute in (t_grammar TRg) in change (t_grammar TRg) with G.
   pose proof (rn_parallel_length n) as Hlen. pose proof (rn_parallel_rev n) as Hrev.
   (* the twelve exact rows before the patterns *)
-  do 12 (rewrite find_grammar_skip by (apply ge_exact_len; [reflexivity|simpl; rewrite Hlen; lia])).
+  do 12 (rewrite find_grammar_skip by (apply ge_exact_len; [reflexivity|rewrite Hlen; simpl; lia])).
   (* regress-*-env, regress-*-targets: the suffix does not fit *)
   do 2 (rewrite find_grammar_skip by
-          (eapply ge_pat_suffix; [simpl; rewrite Hlen; lia|vm_compute; reflexivity|unfold suffixb; rewrite Hrev; reflexivity])).
-  apply find_grammar_hit. unfold grammar_equals, patmatch. simpl gr_pat. simpl gr_kw.
-  assert (Hs : pat_split [114; 101; 103; 114; 101; 115; 115; 45; 42; 45; 112; 97; 114; 97; 108; 108; 101; 108]
-               = Some (regress_prefix, 45 :: sfx_parallel)) by (vm_compute; reflexivity).
-  rewrite Hs. apply orb_true_iff. right. simpl andb.
-  assert (H1 : prefixb regress_prefix (rn_parallel n) = true) by (apply prefixb_spec; eexists; reflexivity).
-  assert (H2 : suffixb (45 :: sfx_parallel) (rn_parallel n) = true).
-  { unfold suffixb. rewrite Hrev. apply prefixb_spec. eexists. reflexivity. }
-  rewrite H1, H2. simpl. rewrite Hlen. apply Nat.leb_le. simpl. lia.
+          (eapply ge_pat_suffix; [vm_compute; reflexivity|vm_compute; reflexivity|unfold suffixb; rewrite Hrev; reflexivity])).
+  apply find_grammar_hit. unfold grammar_equals. cbn [gr_kw gr_pat].
+  apply orb_true_iff. right. apply andb_true_iff. split; [reflexivity|]. unfold patmatch.
+  assert (Hs : pat_split (gr_kw row_regress_parallel) = Some (regress_prefix, 45 :: sfx_parallel)) by (vm_compute; reflexivity).
+  rewrite Hs. apply andb_true_iff. split; [apply andb_true_iff; split|].
+  - apply prefixb_spec. eexists. reflexivity.
+  - unfold suffixb. rewrite Hrev. apply prefixb_spec. eexists. reflexivity.
+  - rewrite Hlen. apply Nat.leb_le. simpl. lia.
 Qed.
 
 Definition global_parallel (c : cfg) : Z :=
@@ -291,6 +290,12 @@ Proof.
     simpl. rewrite Hr. destruct (find_var (c_vars c) (rn_parallel n)) as [[| | |]|]; reflexivity.
 Qed.
 
+Lemma filter_all_false {A} (p : A -> bool) l :
+  (forall n, p n = false) -> filter p l = [] /\ filter (fun n => negb (p n)) l = l.
+Proof.
+  intros H. induction l as [|x l [IH1 IH2]]; simpl; [auto|]. rewrite H. simpl. now rewrite IH2.
+Qed.
+
 (* the regress part of the schedule: parallel ones first, then the others, both in configuration order;
    none parallel when the global switch is off *)
 Lemma regress_two_passes E c :
@@ -309,11 +314,121 @@ Proof.
     assert (Hg : exists g, grammar_for_interp (t_grammar TRg) str_regress = Some g /\ gr_req g = true) by (eexists; split; vm_compute; reflexivity).
     destruct Hg as [g [-> ->]]. reflexivity. }
   rewrite Hf in H. cbv zeta in H.
-  rewrite (split_regress_filter E TRg (par_of c) _ c) in H.
-  - destruct H as [H1 H2]. split; [exact H1|]. split; [exact H2|].
-    intros Hz. assert (Hall : forall n, par_of c n = false) by (intros n; unfold par_of; now rewrite Hz).
-    split.
-    + induction (match find_var (c_vars c) str_regress with Some (VList l) => l | _ => [] end) as [|x l IH]; simpl; [reflexivity|]. now rewrite Hall.
-    + induction (match find_var (c_vars c) str_regress with Some (VList l) => l | _ => [] end) as [|x l IH]; simpl; [reflexivity|]. now rewrite Hall, IH.
-  - intros c' n. rewrite is_parallel_regress. (* par_of depends on the configuration only through its variables *)
-Abort.
+  rewrite (split_regress_filter E TRg (par_of c) c (is_parallel_regress E c)) in H.
+  destruct H as [H1 H2]. split; [exact H1|]. split; [exact H2|].
+  intros Hz. assert (Hall : forall n, par_of c n = false) by (intros n; unfold par_of; now rewrite Hz).
+  apply filter_all_false, Hall.
+Qed.
+
+(* ---------------------------------------------------------------- every listed name resolves *)
+Lemma find_step_in steps : forall s, In s steps -> nonul (ss_name s) ->
+  exists s', find_step steps (ss_name s) = Some s' /\ ss_name s' = ss_name s /\ In s' steps.
+Proof.
+  induction steps as [|h r IH]; intros s Hin0 Hn; [destruct Hin0|]. destruct Hin0 as [<-|Hin]; simpl.
+  - rewrite (cstr_id _ Hn), beq_refl. eauto.
+  - destruct (beq_spec (ss_name h) (cstr (ss_name s))) as [He|He].
+    + exists h. rewrite (cstr_id _ Hn) in He. auto.
+    + destruct (IH s Hin Hn) as [s' [Hf [Hs Hi]]]. exists s'. auto.
+Qed.
+
+(* robsd-exec resolves a listed name against the same schedule robsd-step -L printed *)
+Lemma listed_resolvable E T text c c1 steps s :
+  config_parse E T text = Accepted c -> get_steps E T (after_parse T c) false = (c1, Some steps) ->
+  In s steps -> nonul (ss_name s) ->
+  exists s', resolve E T text false (ss_name s) = Some (ss_cmd s') /\ ss_name s' = ss_name s /\ In s' steps.
+Proof.
+  intros Hp Hg Hin Hn. unfold resolve. rewrite Hp, Hg. simpl.
+  destruct (find_step_in steps s Hin Hn) as [s' [Hf [Hs Hi]]]. exists s'. rewrite Hf. auto.
+Qed.
+
+(* a text without '$' interpolates to itself and leaves the configuration alone *)
+Lemma sinner_nodollar {St} ig (lk : St -> bytes -> St * option bytes) rec st s :
+  ~ In DOLLAR s -> sinner ig lk rec st s = (st, IOk s).
+Proof.
+  induction s as [|c s IH]; intros Hn; [reflexivity|]. cbn [sinner].
+  destruct (N.eqb_spec c DOLLAR) as [->|Hc]; [exfalso; apply Hn; now left|].
+  rewrite IH by (intros H; apply Hn; now right). reflexivity.
+Qed.
+
+Lemma cfg_interp_nodollar E T c s :
+  (2 <= t_depth_limit T)%nat -> nonul s -> ~ In DOLLAR s -> cfg_interp E T c s = (c, IOk s).
+Proof.
+  intros Hd Hn Hs. unfold cfg_interp, sinterp_str. rewrite (cstr_id _ Hn).
+  destruct (t_depth_limit T) as [|[|d]]; try lia. simpl pred. cbn [sinterp]. now apply sinner_nodollar.
+Qed.
+
+(* the command of a step made by config_steps_add_script is never empty after interpolation:
+   it starts with the template's first literal ("sh") *)
+Lemma script_cmd_nonempty E T c script name c1 l a0 rest :
+  (2 <= t_depth_limit T)%nat -> t_argv T = A_lit a0 :: rest -> a0 <> [] -> nonul a0 -> ~ In DOLLAR a0 ->
+  interp_args E T c (script_argv T script name) = (c1, Some l) -> exists l', l = a0 :: l'.
+Proof.
+  intros Hd Ha Hne Hn Hs. unfold script_argv. rewrite Ha. cbn [map interp_args].
+  rewrite (cfg_interp_nodollar E T c a0 Hd Hn Hs).
+  destruct (interp_args E T c _) as [c2 [l2|]]; [|discriminate]. intros H; inversion H; subst.
+  destruct a0; [congruence|]. eauto.
+Qed.
+
+(* ---------------------------------------------------------------- assembled statements *)
+Definition sh_lit : bytes := [115; 104].
+
+Lemma script_cmd_nonempty_gen E m c script name c1 l :
+  interp_args E (tables_of m) c (script_argv (tables_of m) script name) = (c1, Some l) -> exists l', l = sh_lit :: l'.
+Proof.
+  destruct m; eapply script_cmd_nonempty; try reflexivity; try (vm_compute; lia); try discriminate;
+    try (repeat constructor; discriminate); try (vm_compute; intros [H|[H|[]]]; discriminate).
+Qed.
+
+(* a non-vacuity witness: a regress configuration and its listings *)
+From Coq Require Import String.
+Definition sched_wit_env : env :=
+  mk_env (fun p => if beq p (bs "/r") then DS_dir else DS_err 2) (fun _ => true) (fun _ => GL_nomatch) (fun _ => F_noopen)
+         (Some (bs "/x")) 4%Z [] [] (bs "amd64") (bs "amd64").
+
+Definition sched_wit_text : bytes :=
+  bs "robsddir ""/r""
+regress ""a"" no-parallel
+regress ""b""
+regress ""c"" quiet no-parallel
+regress ""d""
+".
+
+Lemma sched_nonvacuous :
+  list_cmd sched_wit_env TRg sched_wit_text None =
+  L_ok (bs "1 env
+2 pkg-add
+3 cvs
+4 patch
+5 obj
+6 mount
+7 b parallel
+8 d parallel
+9 a
+10 c
+11 umount
+12 revert
+13 pkg-del
+14 dmesg
+15 end
+")
+  /\ list_cmd sched_wit_env TRg sched_wit_text (Some (bs "14")) = L_ok (bs "14 dmesg
+15 end
+")
+  /\ list_cmd sched_wit_env TRg sched_wit_text (Some (bs "16")) = L_offset_too_large
+  /\ resolve sched_wit_env TRg sched_wit_text false (bs "b")
+     = Some [bs "sh"; bs "-eu"; bs "/x/robsd-regress-exec.sh"; bs "b"].
+Proof. repeat split; vm_compute; reflexivity. Qed.
+
+(* a canvas step whose command interpolates to nothing is listed, resolved - and has no command left *)
+Definition sched_wit_canvas_text : bytes :=
+  bs "canvas-name ""x""
+canvas-dir ""/r""
+step ""s"" command { ""${trace}"" }
+".
+
+Lemma canvas_empty_command :
+  list_cmd sched_wit_env (tables_of CANVAS) sched_wit_canvas_text None = L_ok (bs "1 s
+2 end
+")
+  /\ resolve sched_wit_env (tables_of CANVAS) sched_wit_canvas_text false (bs "s") = Some [].
+Proof. split; vm_compute; reflexivity. Qed.
